@@ -529,6 +529,10 @@ func (c *Compiler) isFeatureValid(m parse.Node, n parse.Node, featTree map[strin
 // Filter out any features that do not appear in the yang
 func (c *Compiler) checkFeatures() error {
 	filteredFeatures := newFeaturesMap()
+	// What isFeatureValid records about the features it reaches through
+	// if-feature statements goes to the same map, whichever module is
+	// looked at first
+	c.verifiedFeatures = filteredFeatures
 	for _, module := range c.modules {
 		m := module.GetModule()
 		dupChk := make(map[string]bool)
@@ -546,7 +550,6 @@ func (c *Compiler) checkFeatures() error {
 		}
 	}
 
-	c.verifiedFeatures = filteredFeatures
 	return nil
 }
 
